@@ -232,7 +232,7 @@ class CFG:
                 return set()
             if k == "DeclRefExpr":
                 if n["dk"] in ("local", "parm"):
-                    return None if n["d"] in addr_taken else {n["d"]}
+                    return None if n["d"] in addr_taken else {fn.alias_root(n["d"])}
                 if n["dk"] == "enum":
                     return set()
                 return None
@@ -368,7 +368,7 @@ class CFG:
             n = fn.nodes[i]
             flip = not flip
         if n["k"] == "BinaryOperator" and n["op"] in ("==", "!=", "<", "<=", ">", ">="):
-            a, b, op = fn.text(n["c"][0]), fn.text(n["c"][1]), n["op"]
+            a, b, op = self._ktext(n["c"][0]), self._ktext(n["c"][1]), n["op"]
             if op in ("==", "!="):
                 if b < a:
                     a, b = b, a
@@ -378,7 +378,24 @@ class CFG:
             if op == "<=":      # a <= b  is  !(b < a)
                 a, b, flip = b, a, not flip
             return "%s < %s" % (a, b), flip
-        return fn.text(i), flip
+        return self._ktext(i), flip
+
+    def _ktext(self, i):
+        """text of a condition operand in which a local is identified by its alias root, not by its name (so that the
+        result variable of an inlined helper and the helper's own local are the same thing)"""
+        fn = self.fn
+        i = fn.strip(i)
+        n = fn.nodes[i]
+        k = n["k"]
+        if k == "DeclRefExpr" and n.get("dk") in ("local", "parm"):
+            return "v%d" % fn.alias_root(n["d"])
+        if k in ("BinaryOperator",) and len(n["c"]) == 2:
+            return "(%s %s %s)" % (self._ktext(n["c"][0]), n["op"], self._ktext(n["c"][1]))
+        if k == "UnaryOperator" and n["c"]:
+            return n["op"] + self._ktext(n["c"][0])
+        if k == "MemberExpr" and n["c"]:
+            return self._ktext(n["c"][0]) + ("->" if n["arrow"] else ".") + n["fld"]
+        return fn.text(i)
 
     def facts_at(self, pt):
         """tracked facts that hold on every path from the entry to `pt` (their variables are never re-assigned)"""
@@ -456,8 +473,12 @@ class CFG:
         while dq:
             p, facts = dq.popleft()
             e = self.elem_at(p)
-            if e is not None and avoid is not None and avoid(e):
-                continue
+            if e is not None and avoid is not None:
+                if getattr(avoid, "wants_state", False):
+                    if avoid(e, {x[0][1]: x[1] for x in facts if isinstance(x[0], tuple) and x[0][0] == "const"}):
+                        continue
+                elif avoid(e):
+                    continue
             copied = []
             if e is not None and e in self._copyassign and facts:
                 cur = {x[0][1]: x[1] for x in facts if isinstance(x[0], tuple) and x[0][0] == "const"}
